@@ -130,6 +130,10 @@ func step(w *world.World, ev string) {
 		// delegated like r1's ("same"), all local ("local") or all delegated ("all")
 		os := w.S.Objs[osw.OSKey("r1")]
 		phases := osw.SpecPhases(os.Content, world.NS)
+		// "successor:tail:<mode>": r2 drops r1's first phase, so that it reaches the later phases
+		// while r1 itself is stuck in front of them
+		tail := strings.HasPrefix(ev, "successor:tail:")
+		ev = strings.Replace(ev, "successor:tail:", "successor:", 1)
 		var mask uint
 		for i, p := range phases {
 			switch strings.TrimPrefix(ev, "successor:") {
@@ -143,7 +147,11 @@ func step(w *world.World, ev string) {
 				}
 			}
 		}
-		newRevision(w, w.Notes["sliced"] == "yes", "r2", osw.PhaseSpecs(osw.B1(len(phases), mask), 2), world.StdProbes(), "r1")
+		cfg := osw.B1(len(phases), mask)
+		if tail {
+			cfg = cfg[1:]
+		}
+		newRevision(w, w.Notes["sliced"] == "yes", "r2", osw.PhaseSpecs(cfg, 2), world.StdProbes(), "r1")
 	case strings.HasPrefix(ev, "third-party-foreign:"):
 		// a foreign object occupies the name before rollout
 		n := strings.TrimPrefix(ev, "third-party-foreign:")
@@ -228,6 +236,14 @@ func scripts() [][]string {
 		{"ready:a", "ready:b", "ready:g", "ready:c", "successor:same", "ready:a", "ready:b", "ready:g", "ready:c"},
 		{"ready:a", "ready:b", "ready:g", "ready:c", "successor:local", "ready:a", "ready:b", "ready:g", "ready:c"},
 		{"ready:a", "ready:b", "ready:g", "ready:c", "successor:all"},
+		// the old revision's last passes before the handover stop early (an earlier phase regressed)
+		{"ready:a", "ready:b", "ready:g", "ready:c", "notready:a", "successor:same", "ready:a", "ready:b", "ready:g", "ready:c"},
+		{"ready:a", "ready:b", "ready:g", "ready:c", "notready:a", "successor:local", "ready:a", "ready:b", "ready:g", "ready:c"},
+		{"ready:a", "ready:b", "ready:g", "ready:c", "notready:b", "successor:all", "ready:a", "ready:b", "ready:g", "ready:c", "archive"},
+		// ... and the successor does not contain the phase the old revision is stuck at
+		{"ready:a", "ready:b", "ready:g", "ready:c", "notready:a", "successor:tail:same", "ready:b", "ready:g", "ready:c"},
+		{"ready:a", "ready:b", "ready:g", "ready:c", "notready:a", "successor:tail:local", "ready:b", "ready:g", "ready:c", "ready:a"},
+		{"ready:a", "ready:b", "ready:g", "ready:c", "notready:a", "successor:tail:all", "ready:b", "ready:g", "ready:c", "archive"},
 		// ... after the phase objects were deleted by a third party and re-created by the ObjectSet
 		{"ready:a", "ready:b", "ready:g", "ready:c", "nocompare:third-party-delete-phase-objects", "nocompare:ready:a", "nocompare:ready:b", "nocompare:ready:g", "ready:c", "successor:same", "ready:a", "ready:b", "ready:g", "ready:c"},
 		{"ready:a", "ready:b", "ready:g", "ready:c", "nocompare:third-party-delete-phase-objects", "nocompare:ready:a", "nocompare:ready:b", "nocompare:ready:g", "ready:c", "successor:local"},
